@@ -15,6 +15,102 @@ import (
 	"github.com/mimiro-io/datahub/internal/server"
 )
 
+// A paged query that a transform starts, interrupts after the first page (callback returns false -> continuation tokens)
+// and continues LATER by adding the tokens as Continuations to the SAME parameter object (DOCUMENTATION.md: Continuations
+// "overrides all other attributes when set").  The transform (its goja runtime with the parameter object and the tokens)
+// lives across the two calls.
+var verifSessions = map[string]*JavascriptTransform{}
+
+func verifPagesOf(r []*server.Entity) ([][]server.VerifRel, error) {
+	if len(r) != 1 {
+		return nil, fmt.Errorf("expected one result entity, got %d", len(r))
+	}
+	var raw string
+	for k, v := range r[0].Properties {
+		if len(k) >= 5 && k[len(k)-5:] == "pages" {
+			raw, _ = v.(string)
+		}
+	}
+	var pages [][][3]string
+	if err := json.Unmarshal([]byte(raw), &pages); err != nil {
+		return nil, fmt.Errorf("unparsable pages %q", raw)
+	}
+	out := make([][]server.VerifRel, 0, len(pages))
+	for _, pg := range pages {
+		page := []server.VerifRel{}
+		for _, row := range pg {
+			page = append(page, server.VerifRel{Start: row[0], Pred: row[1], ID: row[2]})
+		}
+		out = append(out, page)
+	}
+	return out, nil
+}
+
+// VerifC03JobSessionStart runs the first page; VerifC03JobSessionCont the rest.
+func VerifC03JobSessionStart(store *server.Store, dsm *server.DsManager, id string, starts []string, pred string, inverse bool, datasets []string, pageSize int) ([][]server.VerifRel, error) {
+	if datasets == nil {
+		datasets = []string{}
+	}
+	sj, _ := json.Marshal(starts)
+	pj, _ := json.Marshal(pred)
+	dj, _ := json.Marshal(datasets)
+	js := fmt.Sprintf(`var params = {StartURIs: %s, Via: %s, Inverse: %t, Datasets: %s};
+	var pageSize = %d;
+	var toks = null;
+	var started = false;
+	function transform_entities(entities) {
+		var pages = [];
+		var collect = function (more) { return function (batch) {
+			var pg = [];
+			for (const item of batch) { pg.push([item.StartURI, item.PredicateURI, GetId(item.RelatedEntity)]); }
+			pages.push(pg);
+			return more && pages.length < 60;
+		}; };
+		if (!started) {
+			started = true;
+			toks = PagedQuery(params, pageSize, collect(false));
+		} else if (toks && toks.length > 0) {
+			params.Continuations = toks;            // the same object, start parameters still set
+			toks = PagedQuery(params, pageSize, collect(true));
+		}
+		var res = NewEntity();
+		SetId(res, "http://v/verifresult");
+		SetProperty(res, "http://v/", "pages", JSON.stringify(pages));
+		return [res];
+	}`, string(sj), string(pj), inverse, string(dj), pageSize)
+	sched := &Scheduler{Logger: zap.NewNop().Sugar(), Store: store, DatasetManager: dsm}
+	tr, err := sched.parseTransform(&JobConfiguration{Transform: map[string]interface{}{
+		"Type": "JavascriptTransform",
+		"Code": base64.StdEncoding.EncodeToString([]byte(js)),
+	}})
+	if err != nil || tr == nil {
+		return nil, fmt.Errorf("could not build transform: %v", err)
+	}
+	jt, ok := tr.(*JavascriptTransform)
+	if !ok {
+		return nil, fmt.Errorf("not a javascript transform")
+	}
+	verifSessions[id] = jt
+	r, err := jt.transformEntities(&Runner{statsdClient: &statsd.NoOpClient{}}, []*server.Entity{{ID: "http://v/verifinput"}}, "verif")
+	if err != nil {
+		return nil, err
+	}
+	return verifPagesOf(r)
+}
+
+func VerifC03JobSessionCont(id string) ([][]server.VerifRel, error) {
+	jt := verifSessions[id]
+	if jt == nil {
+		return nil, fmt.Errorf("no session %s", id)
+	}
+	delete(verifSessions, id)
+	r, err := jt.transformEntities(&Runner{statsdClient: &statsd.NoOpClient{}}, []*server.Entity{{ID: "http://v/verifinput"}}, "verif")
+	if err != nil {
+		return nil, err
+	}
+	return verifPagesOf(r)
+}
+
 // VerifC03JobQuery returns the pages of (start, predicate, related id); pageSize 0 = Query (one page), else PagedQuery.
 func VerifC03JobQuery(store *server.Store, dsm *server.DsManager, starts []string, pred string, inverse bool, datasets []string, pageSize int) ([][]server.VerifRel, error) {
 	if datasets == nil {
